@@ -406,6 +406,12 @@ impl Task {
             old(h).action is Some && guarded_event(old(h).action->Some_0.event) && st_terminal(old(h).st(self.id@)) ==> ret is Err && *final(h) == *old(h),
             //# A2-rejected-back-has-no-effect
             old(h).action is Some && old(h).action->Some_0.event is Back && ret is Err ==> *final(h) == *old(h),
+            //# A6-an-accepted-next-submit-remove-skip-or-abort-closes-the-act-in-the-state-of-the-action [C05,C02]
+            old(h).action is Some && ret is Ok ==> (old(h).action->Some_0.event is Next ==> final(h).st(self.id@) is Completed)
+                && (old(h).action->Some_0.event is Submit ==> final(h).st(self.id@) is Submitted)
+                && (old(h).action->Some_0.event is Remove ==> final(h).st(self.id@) is Removed)
+                && (old(h).action->Some_0.event is Skip ==> final(h).st(self.id@) is Skipped)
+                && (old(h).action->Some_0.event is Abort ==> final(h).st(self.id@) is Aborted),
             //# A6-an-accepted-back-closes-the-act-as-backed [C05]
             old(h).action is Some && old(h).action->Some_0.event is Back && ret is Ok ==> final(h).st(self.id@) is Backed,
             //# A2-rejected-abort-has-no-effect
